@@ -93,9 +93,10 @@ type run struct {
 	ch   chan *ha.SyncMessage
 	// e2e
 	px        *proxy
-	up        bool // the harness asked for the link to be up (connect / gapconnect without a cut since)
-	streaming bool // the stream is attached (connect or release succeeded, no cut since)
-	gapPush   bool // a change was pushed between the last full sync and the stream attachment (D42's schedule)
+	up        bool      // the harness asked for the link to be up (connect / gapconnect without a cut since)
+	streaming bool      // the stream is attached (connect or release succeeded, no cut since)
+	gapPush   bool      // a change was pushed between the last full sync and the stream attachment (D42's schedule)
+	ghost     io.Closer // an extra stream connection to the active from this host (another, or an earlier, client)
 }
 
 func (comp) NewRun() hx.Run { return &run{} }
@@ -120,6 +121,9 @@ func sharedServer() *httptest.Server {
 
 func (r *run) Close() {
 	if r.e2e {
+		if r.ghost != nil {
+			r.ghost.Close()
+		}
 		if r.px != nil {
 			r.px.close()
 		}
@@ -691,6 +695,8 @@ func (r *run) standbyHas(id string, v int) bool {
 // client channel, and the messages that precede it (full syncs, the initial heartbeat) have been counted
 func (r *run) attached(wantReceived uint64) bool {
 	return waitFor(longWait, func() bool {
+		// (the client channel is registered before the response headers go out; the count is only a sanity
+		// bound, it must not assume how the active keys its clients)
 		return r.standby.IsConnected() && r.active.ClientCountForVerif() >= 1 && r.received() >= wantReceived
 	})
 }
@@ -719,7 +725,7 @@ func (r *run) doE2E(f []string) string {
 		}
 		if r.streaming {
 			// the change travels the stream: wait until the standby has received and applied it
-			if !waitFor(longWait, func() bool { return r.received() > before && r.standbyHas(f[1], v) }) {
+			if !waitFor(15*time.Second, func() bool { return r.received() > before && r.standbyHas(f[1], v) }) {
 				return "timeout"
 			}
 			return "ok"
@@ -779,10 +785,51 @@ func (r *run) doE2E(f []string) string {
 		r.px.cut()
 		r.up, r.streaming = false, false
 		// both ends have noticed: the standby left connectToStream, the active unregistered the client channel
-		if !waitFor(longWait, func() bool { return !r.standby.IsConnected() && r.active.ClientCountForVerif() == 0 }) {
+		ghosts := 0
+		if r.ghost != nil {
+			ghosts = 1
+		}
+		if !waitFor(longWait, func() bool { return !r.standby.IsConnected() && r.active.ClientCountForVerif() <= ghosts }) {
 			return "timeout"
 		}
 		return "ok"
+	case "ghost":
+		// ghost open / ghost close: another stream client of the active on this host (a second standby, or the
+		// standby's previous connection whose handler has not exited yet).  It reads and discards its stream.
+		// The standby's own stream must be unaffected by its coming and going.
+		if len(f) != 2 {
+			return "badop"
+		}
+		switch f[1] {
+		case "open":
+			if r.ghost != nil {
+				return "already"
+			}
+			before := r.active.ClientCountForVerif()
+			resp, err := http.Get("http://" + r.px.backend + "/ha/sessions/stream")
+			if err != nil {
+				return "error"
+			}
+			go io.Copy(io.Discard, resp.Body)
+			r.ghost = resp.Body
+			if !waitFor(longWait, func() bool { return r.active.ClientCountForVerif() > before }) {
+				return "timeout"
+			}
+			return "ok"
+		case "close":
+			if r.ghost == nil {
+				return "none"
+			}
+			before := r.active.ClientCountForVerif()
+			r.ghost.Close()
+			r.ghost = nil
+			// its handler on the active has run its deferred cleanup
+			if !waitFor(longWait, func() bool { return r.active.ClientCountForVerif() < before }) {
+				return "timeout"
+			}
+			return "ok"
+		}
+		return "badop"
 	case "settle":
 		// Quiescent point.  Every change pushed while the stream was attached has already been waited for, so the
 		// standby's table is final here.  Where the script itself has not set up a divergence (nothing pushed in
@@ -809,6 +856,9 @@ func genE2E(r *rand.Rand, n int, emit func([]string)) {
 		}
 		return fmt.Sprintf("add %s v%d", id, 1+r.Intn(5))
 	}
+	// another client's stream ends after the standby has attached its own
+	emit([]string{"e2e", "add s1 v1", "ghost open", "connect", "ghost close", fmt.Sprintf("add s2 v%d", 1+r.Intn(5)),
+		"update s1 v2", "delete s2", "settle", "active"})
 	for i := 0; i < n; i++ {
 		ids := 2 + r.Intn(3)
 		seq := []string{"e2e"}
@@ -828,8 +878,10 @@ func genE2E(r *rand.Rand, n int, emit func([]string)) {
 					seq = append(seq, "connect")
 					up = true
 				}
-			default:
+			case x < 9:
 				seq = append(seq, "settle")
+			default:
+				seq = append(seq, pickOne(r, "ghost open", "ghost close"))
 			}
 		}
 		if !up {
